@@ -49,9 +49,10 @@ type hrec struct {
 }
 
 type decision struct {
-	async bool
-	delay time.Duration
-	err   error
+	async  bool
+	delay  time.Duration
+	yields int // asynchronous without virtual time: the callback goroutine only yields
+	err    error
 }
 
 type scn struct {
@@ -99,14 +100,25 @@ func (s *scn) record(kind, info string) {
 // decide draws the behaviour of one handler invocation. Handlers that answer
 // commands are invoked on the reader goroutine, one at a time, so the draw order
 // is deterministic.
-func (s *scn) decide() decision {
+//
+// An asynchronous OnSubscribe callback never sleeps on the virtual clock: Client.close
+// holds connectMu while its unsubscribe loop waits for an in-flight subscribe, and a
+// second close (or triggerConnect) blocked on that mutex is not "durably blocked", so
+// virtual time could not advance to wake the sleeping callback (a bubble artefact, in
+// real time the wait simply ends). Such callbacks run after a PRNG-chosen number of
+// scheduler yields instead.
+func (s *scn) decide(kind string) decision {
 	s.mu.Lock()
 	defer s.mu.Unlock()
 	var d decision
 	r := s.hr
 	if r.Chance(1, 2) {
 		d.async = true
-		d.delay = time.Duration(r.Range(0, int(maxHandlerDelay/time.Millisecond))) * time.Millisecond
+		if kind == "subscribe" {
+			d.yields = r.Range(0, 40)
+		} else {
+			d.delay = time.Duration(r.Range(0, int(maxHandlerDelay/time.Millisecond))) * time.Millisecond
+		}
 		s.nAsync++
 	}
 	switch x := r.Intn(100); {
@@ -143,7 +155,10 @@ func (s *scn) finish(d decision, f func(err error)) {
 	s.wg.Add(1)
 	go func() {
 		defer s.wg.Done()
-		time.Sleep(d.delay)
+		if d.delay > 0 {
+			time.Sleep(d.delay)
+		}
+		kit.Yield(d.yields)
 		f(d.err)
 	}()
 }
@@ -167,7 +182,7 @@ func (s *scn) install(cl *centrifuge.Client) {
 	if !s.missing["subscribe"] {
 		cl.OnSubscribe(func(e centrifuge.SubscribeEvent, cb centrifuge.SubscribeCallback) {
 			s.record("subscribe", e.Channel)
-			d := s.decide()
+			d := s.decide("subscribe")
 			o, csr := subOptsFor(e.Channel)
 			s.finish(d, func(err error) { cb(centrifuge.SubscribeReply{Options: o, ClientSideRefresh: csr}, err) })
 		})
@@ -178,7 +193,7 @@ func (s *scn) install(cl *centrifuge.Client) {
 	if !s.missing["publish"] {
 		cl.OnPublish(func(e centrifuge.PublishEvent, cb centrifuge.PublishCallback) {
 			s.record("publish", e.Channel)
-			d := s.decide()
+			d := s.decide("publish")
 			rep := centrifuge.PublishReply{}
 			if strings.HasPrefix(e.Channel, "c2") {
 				rep.Options = centrifuge.PublishOptions{HistorySize: 5, HistoryTTL: time.Minute}
@@ -187,40 +202,40 @@ func (s *scn) install(cl *centrifuge.Client) {
 		})
 		cl.OnMapPublish(func(e centrifuge.MapPublishEvent, cb centrifuge.MapPublishCallback) {
 			s.record("map_publish", e.Channel)
-			d := s.decide()
+			d := s.decide("map_publish")
 			s.finish(d, func(err error) { cb(centrifuge.MapPublishReply{Key: e.Key}, err) })
 		})
 		cl.OnMapRemove(func(e centrifuge.MapRemoveEvent, cb centrifuge.MapRemoveCallback) {
 			s.record("map_remove", e.Channel)
-			d := s.decide()
+			d := s.decide("map_remove")
 			s.finish(d, func(err error) { cb(centrifuge.MapRemoveReply{Key: e.Key}, err) })
 		})
 	}
 	if !s.missing["presence"] {
 		cl.OnPresence(func(e centrifuge.PresenceEvent, cb centrifuge.PresenceCallback) {
 			s.record("presence", e.Channel)
-			d := s.decide()
+			d := s.decide("presence")
 			s.finish(d, func(err error) { cb(centrifuge.PresenceReply{}, err) })
 		})
 	}
 	if !s.missing["presence_stats"] {
 		cl.OnPresenceStats(func(e centrifuge.PresenceStatsEvent, cb centrifuge.PresenceStatsCallback) {
 			s.record("presence_stats", e.Channel)
-			d := s.decide()
+			d := s.decide("presence_stats")
 			s.finish(d, func(err error) { cb(centrifuge.PresenceStatsReply{}, err) })
 		})
 	}
 	if !s.missing["history"] {
 		cl.OnHistory(func(e centrifuge.HistoryEvent, cb centrifuge.HistoryCallback) {
 			s.record("history", e.Channel)
-			d := s.decide()
+			d := s.decide("history")
 			s.finish(d, func(err error) { cb(centrifuge.HistoryReply{}, err) })
 		})
 	}
 	if !s.missing["rpc"] {
 		cl.OnRPC(func(e centrifuge.RPCEvent, cb centrifuge.RPCCallback) {
 			s.record("rpc", e.Method)
-			d := s.decide()
+			d := s.decide("rpc")
 			s.finish(d, func(err error) { cb(centrifuge.RPCReply{Data: []byte(`{"r":1}`)}, err) })
 		})
 	}
@@ -230,14 +245,14 @@ func (s *scn) install(cl *centrifuge.Client) {
 	if !s.missing["refresh"] {
 		cl.OnRefresh(func(e centrifuge.RefreshEvent, cb centrifuge.RefreshCallback) {
 			s.record("refresh", "")
-			d := s.decide()
+			d := s.decide("refresh")
 			s.finish(d, func(err error) { cb(centrifuge.RefreshReply{ExpireAt: time.Now().Unix() + 3600}, err) })
 		})
 	}
 	if !s.missing["sub_refresh"] {
 		cl.OnSubRefresh(func(e centrifuge.SubRefreshEvent, cb centrifuge.SubRefreshCallback) {
 			s.record("sub_refresh", e.Channel)
-			d := s.decide()
+			d := s.decide("sub_refresh")
 			s.finish(d, func(err error) { cb(centrifuge.SubRefreshReply{ExpireAt: time.Now().Unix() + 600}, err) })
 		})
 	}
@@ -826,7 +841,8 @@ func runScenario(c *kit.Case, w *kit.World, node *centrifuge.Node, s *scn, reg f
 	}
 	continueAfterStop := s.profile == "wild" && r.Chance(1, 5)
 
-	sent := map[uint32]int{} // reply-expecting commands handed to the client, per id
+	sent := map[uint32]int{}    // reply-expecting commands handed to the client, per id
+	sendIDs := map[uint32]int{} // one-way sends that carry an id anyway: 0 or 1 reply each (an OnCommandRead error is reported with the id)
 	var labels []string
 	allProceed := true
 	stopped := false
@@ -845,6 +861,9 @@ func runScenario(c *kit.Case, w *kit.World, node *centrifuge.Node, s *scn, reg f
 		for _, cmd := range fr.decoded {
 			if expectsReply(cmd) {
 				sent[cmd.Id]++
+			} else if cmd.Id > 0 {
+				sendIDs[cmd.Id]++
+				c.Count("send_with_id", 1)
 			}
 			labels = append(labels, cmdLabel(cmd))
 			c.Count("cmd_"+kindOf(cmd), 1)
@@ -1095,9 +1114,9 @@ func runScenario(c *kit.Case, w *kit.World, node *centrifuge.Node, s *scn, reg f
 	sort.Slice(ids, func(i, j int) bool { return ids[i] < ids[j] })
 	open := !closed && allProceed
 	for _, id := range ids {
-		if replies[id] > sent[id] {
+		if replies[id] > sent[id]+sendIDs[id] {
 			c.Violation("c09-more-replies-than-commands-for-id",
-				fmt.Sprintf("%d replies with id %d for %d command(s) carrying that id", replies[id], id, sent[id]), detail())
+				fmt.Sprintf("%d replies with id %d for %d command(s) carrying that id", replies[id], id, sent[id]+sendIDs[id]), detail())
 			break
 		}
 		if open && replies[id] < sent[id] {
@@ -1120,7 +1139,7 @@ func runScenario(c *kit.Case, w *kit.World, node *centrifuge.Node, s *scn, reg f
 		c.Count("sequences_with_duplicate_ids", 1)
 	}
 	for id, n := range sent {
-		if n > 1 && replies[id] == n {
+		if n > 1 && replies[id] == n && sendIDs[id] == 0 {
 			c.Count("duplicate_id_each_answered", 1)
 		}
 	}
@@ -1182,7 +1201,7 @@ func kindsSig(labels []string) string {
 	return strings.Join(ks, ",")
 }
 
-const scenariosPerCase = 8
+const scenariosPerCase = 12
 
 func runCase(c *kit.Case) {
 	r := c.R
@@ -1330,7 +1349,7 @@ func TestC09(t *testing.T) {
 		ID:     "C09",
 		Level:  "exploration",
 		Bubble: true,
-		Rule: "each case = one node in a virtual-time bubble and 8 connections, one command sequence each (one evaluation per sequence). Profiles: clean (connect, then 2-14 valid commands of every request type, fresh and duplicate ids, several per frame), " +
+		Rule: "each case = one node in a virtual-time bubble and 12 connections, one command sequence each (one evaluation per sequence). Profiles: clean (connect, then 2-14 valid commands of every request type, fresh and duplicate ids, several per frame), " +
 			"pongstrict (clean, then an unsolicited pong on the verified-open connection, optionally after answering a real server ping), preauth (first command is not connect: any request type, empty command, id without request), " +
 			"connectfail (OnConnecting returns an error / a disconnect / no credentials, then more commands), wild (id 0, duplicate and huge ids, second connect, ping request, empty channels, several requests per command, odd subscribe types/delta/flags, " +
 			"send with id, handlers missing, handlers returning disconnects, malformed JSON lines / truncated Protobuf varints / oversized length prefixes / garbage bodies, empty frames, feeding after HandleCommand said stop). " +
@@ -1342,12 +1361,12 @@ func TestC09(t *testing.T) {
 			"Non-trivial = every sequence; signature = profile x protocol x mode x close code x reply/handler buckets x command kinds.",
 		Assumptions: []string{
 			"what the server decodes from a frame is taken from the protocol package's own stream decoder run over the same bytes",
-			"a send request is one-way by protocol definition: a send that carries an id is not expected to be answered (counted as cmd_send)",
+			"a send request is one-way by protocol definition: a send that carries an id may stay unanswered or get one error reply (counted as send_with_id)",
 			"'unless the connection is closed' is read literally: on a connection the server closed (for any reason) unanswered commands are accepted, only surplus replies are not",
 			"the exact disconnect code is asserted only where the harness knows that nothing else could have closed the connection (first command of a connection; unsolicited pong after a settled clean sequence)",
 			"an application handler always calls its callback exactly once",
 		},
-		Cases: map[string]int{"quick": 1500, "thorough": 24000},
+		Cases: map[string]int{"quick": 700, "thorough": 10000},
 		RequireCounters: []string{"closed_before_auth", "preauth_strict_checked", "unsolicited_pong_closed", "unsolicited_pong_strict_checked", "pong_after_ping_accepted",
 			"open_at_end_all_answered", "async_replies_reordered", "duplicate_id_each_answered", "malformed_frames", "empty_frames", "multi_command_frames",
 			"frames_json", "frames_protobuf", "frames_do", "handlers_installed_before_connect", "cases_with_command_read_hooks",
